@@ -37,7 +37,7 @@ ASSUMPTIONS = [
     "by protocol and excluded",
     "wrong-multiplexer disturbances are applied only to frames that carry a multiplexer",
 ]
-BUDGET = {"quick": 55, "thorough": 420}
+BUDGET = {"quick": 150, "thorough": 420}
 NODE = 2
 RX, TX = 0x600 + NODE, 0x580 + NODE
 TIMEOUT_ABORT = bytes([0x80, 0, 0, 0, 0, 0, 0x04, 0x05])
